@@ -2,125 +2,11 @@ package main
 
 import (
 	"fmt"
-	"go/ast"
-	"go/parser"
-	"go/token"
-	"os"
-	"path/filepath"
-	"strconv"
-
-	"gorm.io/gorm"
-	"gorm.io/gorm/logger"
-	"gorm.io/gorm/utils/tests"
 
 	"verifharness/lib"
 )
 
 var pipelines = []string{"create", "query", "update", "delete", "row", "raw"}
-
-func repoDir() string {
-	if d := os.Getenv("VERIF_REPO"); d != "" {
-		return d
-	}
-	return "/repo"
-}
-
-// readBuiltins extracts, from <repo>/callbacks/callbacks.go, the default registration of every
-// pipeline: names in order, and whether the registration is guarded by Match(enableTransaction).
-func readBuiltins() map[string][]Step {
-	file := filepath.Join(repoDir(), "callbacks", "callbacks.go")
-	fset := token.NewFileSet()
-	f, err := parser.ParseFile(fset, file, nil, 0)
-	lib.Must(err)
-	res := map[string][]Step{}
-	vars := map[string]string{} // variable -> pipeline
-	ast.Inspect(f, func(n ast.Node) bool {
-		fd, ok := n.(*ast.FuncDecl)
-		if !ok || fd.Name.Name != "RegisterDefaultCallbacks" {
-			return true
-		}
-		for _, st := range fd.Body.List {
-			switch s := st.(type) {
-			case *ast.AssignStmt:
-				// x := db.Callback().Create()
-				if len(s.Lhs) == 1 && len(s.Rhs) == 1 {
-					if id, ok := s.Lhs[0].(*ast.Ident); ok {
-						if call, ok := s.Rhs[0].(*ast.CallExpr); ok {
-							if sel, ok := call.Fun.(*ast.SelectorExpr); ok {
-								if inner, ok := sel.X.(*ast.CallExpr); ok {
-									if isel, ok := inner.Fun.(*ast.SelectorExpr); ok && isel.Sel.Name == "Callback" {
-										vars[id.Name] = map[string]string{"Create": "create", "Query": "query", "Update": "update",
-											"Delete": "delete", "Row": "row", "Raw": "raw"}[sel.Sel.Name]
-									}
-								}
-							}
-						}
-					}
-				}
-			case *ast.ExprStmt:
-				call, ok := s.X.(*ast.CallExpr)
-				if !ok {
-					continue
-				}
-				sel, ok := call.Fun.(*ast.SelectorExpr)
-				if !ok || sel.Sel.Name != "Register" || len(call.Args) < 1 {
-					continue
-				}
-				lit, ok := call.Args[0].(*ast.BasicLit)
-				if !ok {
-					panic("callbacks.go: Register with a non-literal name")
-				}
-				name, _ := strconv.Unquote(lit.Value)
-				tx := false
-				recv := sel.X
-				if c2, ok := recv.(*ast.CallExpr); ok { // x.Match(enableTransaction).Register
-					s2, ok := c2.Fun.(*ast.SelectorExpr)
-					if !ok || s2.Sel.Name != "Match" {
-						panic("callbacks.go: unexpected registration chain for " + name)
-					}
-					tx = true
-					recv = s2.X
-				}
-				id, ok := recv.(*ast.Ident)
-				if !ok || vars[id.Name] == "" {
-					panic("callbacks.go: unexpected receiver for " + name)
-				}
-				p := vars[id.Name]
-				res[p] = append(res[p], Step{Kind: "register", Name: name, Builtin: true, Tx: tx})
-			}
-		}
-		return false
-	})
-	// validation against the real default registration: every extracted name is registered there
-	db, err := gorm.Open(tests.DummyDialector{}, &gorm.Config{Logger: logger.Discard})
-	lib.Must(err)
-	for _, p := range pipelines {
-		if len(res[p]) == 0 {
-			panic("callbacks.go: no default registration found for pipeline " + p)
-		}
-		for _, s := range res[p] {
-			var h func(*gorm.DB)
-			switch p {
-			case "create":
-				h = db.Callback().Create().Get(s.Name)
-			case "query":
-				h = db.Callback().Query().Get(s.Name)
-			case "update":
-				h = db.Callback().Update().Get(s.Name)
-			case "delete":
-				h = db.Callback().Delete().Get(s.Name)
-			case "row":
-				h = db.Callback().Row().Get(s.Name)
-			case "raw":
-				h = db.Callback().Raw().Get(s.Name)
-			}
-			if h == nil {
-				panic(fmt.Sprintf("callbacks.go: %s/%s extracted but not registered by RegisterDefaultCallbacks", p, s.Name))
-			}
-		}
-	}
-	return res
-}
 
 // ---------------------------------------------------------------- enumeration
 
